@@ -32,6 +32,8 @@ RULE = ('classes in every run: compensator limits none/lower/upper/two-sided wit
         'scenarios: seeded singlets/doublets (+plane window) with ideal and catalogue media, 1-3 wavelengths; perturbations on '
         'every variable type (radius conic thickness index asphere_coeff tilt decenter) with Scalar/Range/normal/uniform samplers, '
         '0-1 compensators (generic / least_squares), optional pickup, 1-8 trials, ray-failure and nominal-value perturbations; '
+        'operand-set edits between analyses / manual compensations on one Tolerancing with a compensator (rows replayed with the '
+        'operands active at that step); '
         'non-trivial = at least one finite operand value that differs from the nominal one')
 PARTIAL = [
     'reset_restores / row_is_fresh / ends_nominal are proved for any lens type whose variable handles satisfy the store laws and '
@@ -577,6 +579,51 @@ def history_scenario(r, idx, kind):
     return sc
 
 
+OPEDIT_KINDS = ['mc-addop-mc', 'sens-addop-sens', 'compensate-addop-mc', 'addop-before-first-run', 'mc-addop-sens']
+
+
+def operand_edit_scenario(r, idx, kind):
+    """the OPERAND SET of one Tolerancing object (with a compensator) is edited between public calls: an analysis (or a
+    manual apply_compensators()) is performed, further operands are registered, a new analysis is run on the same object.
+    Every row is replayed on a fresh nominal lens with the operands active at that step of the plan and the same
+    compensation; the added operand is chosen so that it moves the compensated optimum (counted in the histogram)."""
+    spec = two_lens(r)
+    R1 = spec['surfaces'][0]['radius']
+    prim = spec['wavelengths'][0][0]
+    yint = ['real_y_intercept', {'surface_number': -1, 'Hx': 0.0, 'Hy': 0.0, 'Px': 0.0, 'Py': r.choice([0.7, 1.0]), 'wavelength': prim}]
+    rms = ['rms_spot_size', {'surface_number': -1, 'Hx': 0.0, 'Hy': 0.0, 'num_rays': 3, 'wavelength': prim, 'distribution': 'hexapolar'}]
+    # (operands registered first, operands registered later, compensator): the later operand depends on the compensator
+    # in a way the earlier ones do not fix
+    first, late, comp = r.choice([
+        ([['f2', {}]], [yint], {'type': 'thickness', 'kw': {'surface_number': 4}}),      # image distance: f2 does not see it
+        ([['f2', {}]], [yint], {'type': 'thickness', 'kw': {'surface_number': 2}}),
+        ([['f2', {}]], [yint, rms], {'type': 'radius', 'kw': {'surface_number': 4}}),
+        ([yint], [['f2', {}]], {'type': 'thickness', 'kw': {'surface_number': 2}}),
+        ([['f2', {}]], [rms], {'type': 'thickness', 'kw': {'surface_number': 4}})])
+    ops = first + late
+    d = R1 * r.uniform(0.02, 0.04)
+    n1 = r.choice([2, 3])
+    perts = [{'type': 'radius', 'kw': {'surface_number': 1}, 'sampler': ['range', R1 - d, R1 + d * r.uniform(0.6, 1.0), n1]}]
+    sc = {'name': f'o{idx}-{kind}', 'lens': spec, 'pickups': [], 'solves': [], 'operands': ops, 'ops_initial': len(first),
+          'perts': perts, 'comps': [comp], 'method': 'generic', 'tol': 1e-5, 'WS': sorted({0.45, 0.7, prim}),
+          'check_repro': True, 'opedit_kind': kind}
+    add = ['addop', len(ops)]
+    if kind == 'mc-addop-mc':
+        sc['history'] = [['mc', r.choice([1, 2])], add, ['mc', n1]]
+    elif kind == 'sens-addop-sens':
+        sc['history'] = [['sens'], add, ['sens']]
+    elif kind == 'mc-addop-sens':
+        sc['history'] = [['mc', n1], add, ['sens']]
+    elif kind == 'compensate-addop-mc':
+        sc['history'] = [['compensate'], add, ['mc', n1]]
+    else:
+        sc['history'] = [add, ['sens']]            # registered after the perturbations / compensators, before any run
+    last = sc['history'][-1]
+    sc['analysis'] = last[0]
+    sc['trials'] = last[1] if last[0] == 'mc' else None
+    return sc
+
+
 def class_scenarios(ctx, seed_off=0):
     """the input classes every run (quick tier included) must exercise"""
     r = random.Random(ctx.seed * 104723 + 17 + seed_off)
@@ -607,6 +654,13 @@ def class_scenarios(ctx, seed_off=0):
     for i, sc in enumerate(out):
         sc['route'] = ROUTES[(i + ctx.seed) % 4]
         sc['route_seed'] = ctx.seed * 31 + i
+    # the operand set is edited between analyses on one Tolerancing object with a compensator (own stream: fixed corpus)
+    r2 = random.Random(ctx.seed * 7243 + 5 + seed_off)
+    for i, k in enumerate(OPEDIT_KINDS):
+        sc = operand_edit_scenario(r2, i, k)
+        sc['route'] = ROUTES[(i + ctx.seed) % 4]
+        sc['route_seed'] = ctx.seed * 37 + i
+        out.append(sc)
     if not ctx.quick():
         for i in range(20, 80):
             out.append(tiny_scenario(r, i, 1 + i % 12, types[i % 7]))
@@ -770,6 +824,8 @@ Fixpoint adv (j n : nat) (s : ST) : ST := match n with 0%nat => s | S n' => adv 
         if st[0] == 'advance':
             body = f'let s := adv {st[1]}%nat {st[2]}%nat s in\n  {body}'
             continue
+        if st[0] in ('addop', 'compensate'):
+            continue        # no effect on the machine state (lens, samplers, stream); operands are not in the model
         n = info['n']
         trs = r['trials'][pos - n:pos]
         pos -= n
@@ -783,7 +839,7 @@ Fixpoint adv (j n : nat) (s : ST) : ST := match n with 0%nat => s | S n' => adv 
     L.append(f'Definition tolS := {tol_s}.')
     L += defs
     L.append('Definition res := let s := s0 in let rows : list (row (O:=FOps)) := [] in let aok := true in\n  ' + body + '.')
-    ana = [k for k, (st, info) in enumerate(steps) if st[0] != 'advance']
+    ana = [k for k, (st, info) in enumerate(steps) if st[0] in ('mc', 'sens')]
     p_steps = 'Definition p_steps_nominal := ' + ' && '.join(f'close_list tolS i_after_{k} i_nominal' for k in ana) + '.'
     # implementation data
     L.append('Definition i_states : list (list float) := [' + ';\n  '.join(fl(snap_vec(tr['snap'])) for tr in r['trials']) + '].')
@@ -861,7 +917,11 @@ def python_level_checks(sc, r):
         out.append(dict(base, check='row_fresh', rows=bad[:5], violates_property=True,
                         explained=sorted({tuple(r['oracle'][i].get('explained') or ['?']) for i in bad}),
                         detail=f'recorded operand values {r["trials"][bad[0]]["row_ops"]} != fresh evaluation '
-                               f'{r["oracle"][bad[0]]["fresh"]} (trial {bad[0]})'))
+                               f'{r["oracle"][bad[0]]["fresh"]} (trial {bad[0]})'
+                               + (f'; history on one Tolerancing object {sc["history"]} with operands {[o[0] for o in sc["operands"]]}, '
+                                  f'the first {sc["ops_initial"]} registered at set-up, compensator {sc["comps"][0]["type"]} '
+                                  f'{sc["comps"][0]["kw"]}; the replay compensates against the operands active at that step'
+                                  if sc.get('opedit_kind') else '')))
     if r['diff_run']:
         out.append(dict(base, check='p_run_ends_nominal', diff=r['diff_run'], violates_property=True,
                         detail='lens after run() differs from nominal'))
@@ -1053,6 +1113,11 @@ def system_checks(ctx):
             hist['solve+comp' if sc['comps'] else 'solve'] = hist.get('solve+comp' if sc['comps'] else 'solve', 0) + 1
         if sc.get('history_kind'):
             hist['history:' + sc['history_kind']] = hist.get('history:' + sc['history_kind'], 0) + 1
+        if sc.get('opedit_kind'):
+            hist['operand-edit:' + sc['opedit_kind']] = hist.get('operand-edit:' + sc['opedit_kind'], 0) + 1
+            em = sum(1 for e in r.get('oracle', []) if e.get('edit_matters'))
+            hist['operand-edit-rows-where-added-operand-moves-the-compensation'] = \
+                hist.get('operand-edit-rows-where-added-operand-moves-the-compensation', 0) + em
         if sc.get('tiny'):
             k = f'perturbation-relative-size:1e-{sc["tiny"]:02d}'
             hist[k] = hist.get(k, 0) + 1
